@@ -505,6 +505,26 @@ fn shrink_candidates(p: &dyn Property, sc: &Scenario) -> Vec<Scenario> {
             v.push(c);
         }
     }
+    // knobs: prefer the plain configuration; script lines: prefer the trimmed spelling
+    for (k, val) in &sc.knobs {
+        if *val != 0 && k != "family" && k != "k" {
+            let mut c = sc.clone();
+            c.set_knob(k, 0);
+            v.push(c);
+        }
+    }
+    for (i, l) in sc.script.iter().enumerate() {
+        if l.trim() != l && !l.trim().is_empty() {
+            let mut c = sc.clone();
+            c.script[i] = l.trim().to_string();
+            v.push(c);
+        }
+    }
+    if sc.no_final_newline {
+        let mut c = sc.clone();
+        c.no_final_newline = false;
+        v.push(c);
+    }
     v.extend(p.extra_shrinks(sc));
     v
 }
